@@ -142,6 +142,12 @@ Proof.
   apply G. unfold armedn. simpl. rewrite T. reflexivity.
 Qed.
 
+Lemma inl_head r a tl : eqn a r <= inl r (a :: tl).
+Proof. rewrite inl_cons. unfold eqn. rewrite Nat.eqb_sym. destruct (Nat.eqb r a); lia. Qed.
+
+Lemma inl_tail r a tl : inl r tl <= inl r (a :: tl).
+Proof. rewrite inl_cons. destruct (Nat.eqb r a); auto using inl_le1. Qed.
+
 Section StepNF.
 Variables (c : config) (s s' : state) (l : label) (e : list event).
 Hypothesis Hf : fixed c.
@@ -223,12 +229,11 @@ Proof.
       assert (NE : n <> r) by (intros ->; rewrite inl_cons, Nat.eqb_refl in Z; discriminate).
       apply Nat.eqb_neq in NE. nf_sums r Ep. simpl. rewrite Z. unfold eqn in *. rewrite NE. simpl in *. lia. }
     (* PFvR: an idle candidate or the next candidate *)
-    1-2: nf_sums r Ep; simpl in *; unfold eqn, inl in *; simpl in *;
-      repeat match goal with
-             | |- context [existsb ?f ?l] => destruct (existsb f l) eqn:?
-             | H : context [existsb ?f ?l] |- _ => destruct (existsb f l) eqn:?
-             end;
-      eqb_cases; simpl in *; try lia; try congruence.
+    1-2: match goal with Ep : nth_error (thr s) _ = Some (PFvR _ (?a :: ?tl) ?f) |- _ =>
+           pose proof (inl_head r a tl) as Hh; pose proof (inl_tail r a tl) as Ht;
+           pose proof (cnt_ge (mentions r) _ _ _ Ep) as GeM2; cbn [mentions] in GeM2
+         end;
+         nf_sums r Ep; cbn [mentions]; unfold eqn in *; lia.
     1: { (* PUfs: the runners to visit are the registered ones *)
       assert (Z : inl r (n :: l0) = 0) by (apply snapshot_inl; auto; intros x Hx; rewrite E0; exact Hx).
       nf_sums r Ep. simpl. rewrite Z. simpl in *. lia. }
@@ -238,10 +243,49 @@ Proof.
     (* PLd2: the runner stops being fresh *)
     assert (NE : r0 <> r).
     { intros ->. destruct Hpre as [Hl|Hr].
-      - rewrite upd_length in Hl. apply nth_error_Some in Hl; [auto|]. congruence.
-      - revert Hr. nf_sums r Ep. unfold freshr. simpl. unfold eqn. rewrite Nat.eqb_refl.
-        pose proof (cnt_mono (freshr r) isP (thr s) (freshr_isP r)) as Mo. destruct IO as [IP _]. intros Hr. lia. }
+      - rewrite upd_length in Hl. apply nth_error_None in Hl. congruence.
+      - pose proof (cnt_mono (freshr r) isP (thr s) (freshr_isP r)) as Mo. destruct IO as [IP _].
+        revert Hr. nf_sums r Ep. unfold freshr in *. simpl. unfold eqn in *. rewrite Nat.eqb_refl. intros Hr. lia. }
     apply Nat.eqb_neq in NE. nf_sums r Ep. simpl. unfold eqn in *. rewrite NE. unfold armedn in *. simpl in *. lia.
 Qed.
 
 End StepNF.
+
+Lemma I_nf_Reach c s ev : fixed c -> Reach c s ev -> I_nf s.
+Proof.
+  intros Hf R. induction R as [m|s ev l s' e R IH Hs].
+  - intros r _. unfold occ, getd. simpl. destruct r; reflexivity.
+  - destruct (I_locks_Reach _ _ _ Hf R) as (_ & _ & C). eapply I_nf_step; eauto. eapply L2_Reach; eauto.
+Qed.
+
+(* updateFreeSpace always has a runner left to visit while it is inside its loop *)
+Fixpoint ufs_ok (p : pc) : Prop :=
+  match p with PUfsR _ _ rest => rest <> [] | TEntry p' => ufs_ok p' | _ => True end.
+
+Definition I_ufs (s : state) : Prop := Forall ufs_ok (thr s).
+
+Lemma wake_ufs_ok t' p : ufs_ok p -> ufs_ok (wake t' p).
+Proof. destruct p; simpl; auto; destruct (Z.leb u t'); simpl; auto. Qed.
+
+Lemma I_ufs_step c s l s' e : I_ufs s -> step c s l = Some (s', e) -> I_ufs s'.
+Proof.
+  unfold I_ufs. intros I H.
+  destruct l as [sp|q0|m|d|t alt].
+  - step_cases H; simpl; auto.
+  - step_cases H; simpl; auto.
+  - step_cases H; simpl. apply Forall_snoc; simpl; auto.
+  - step_cases H. rewrite tick_thr. apply Forall_app. split.
+    + rewrite Forall_forall in *. intros p Hin. apply in_map_iff in Hin. destruct Hin as (p0 & <- & Hin). apply wake_ufs_ok; auto.
+    + rewrite Forall_forall. intros p Hin. apply fire_pcs_In in Hin. destruct Hin as (r & ->). simpl. auto.
+  - unfold step in H. destruct (nth_error (thr s) t) as [p|] eqn:Ep; try discriminate.
+    pose proof (Forall_nth_error _ _ _ _ I Ep) as Ip.
+    destruct p; step_cases H; simpl;
+    repeat first [apply Forall_upd | apply Forall_snoc]; simpl in *; auto; try congruence.
+Qed.
+
+Lemma I_ufs_Reach c s ev : Reach c s ev -> I_ufs s.
+Proof.
+  revert s ev. apply Reach_ind_inv.
+  - intros m. repeat constructor.
+  - intros; eapply I_ufs_step; eauto.
+Qed.
